@@ -464,7 +464,54 @@ def rule_layer_removal(ctx: Ctx) -> None:
            "_remove_latency_layer unlinks the layer at the head (link.latency is layer) or, walking from the head along _base, wherever it sits below (a walk that starts one level down never finds the layer directly under the outermost one)")
 
 
+def rule_hunted_fixed(ctx: Ctx) -> None:
+    """C06-5/C06-3 (hunted, repaired): (a) a window that opened before the run's start time is in effect from the start — `FaultSchedule.start`
+    clamps every generated event time to `start_time` before handing the events over (an event stamped earlier is discarded by the run loop
+    as time travel, and then only the deactivation of the window ever runs); (b) a Resource validates a request against the capacity it was
+    *configured* with: a fault-reduced capacity is temporary and acquirers wait for it to come back."""
+    prog = ctx.prog
+    st = prog.func("happysimulator/faults/schedule.py", "FaultSchedule.start")
+    ff = ctx.flow(st)
+    clamps = [n_ for n_ in ff.cfg.nodes if n_.kind == "stmt" and isinstance(n_.ast, ast.Assign) and isinstance(n_.ast.targets[0], ast.Attribute) and n_.ast.targets[0].attr == "time" and path_of(n_.ast.value) == "start_time"]
+    hand = [n_ for n_ in ff.cfg.nodes if n_.kind == "stmt" and any(path_of(k.func) == "all_events.extend" for k in calls_in(n_.ast))]
+    ok = len(clamps) == 1 and len(hand) == 1
+    if ok:
+        ev = path_of(clamps[0].ast.targets[0].value)
+        ok = ff.holds_at(clamps[0], Fact("lt", f"{ev}.time", "start_time")) and bool(clamps[0].in_loops) and not always_before(ctx, st, lambda x: x.kind == "for" and x.id == clamps[0].in_loops[-1], lambda x: x is hand[0])
+    ctx.ob("C06-5", "G2", st, clamps[0].ast if clamps else None, ok, "FaultSchedule.start moves every generated fault event that lies before `start_time` to `start_time` before the events are handed to the simulation")
+    RESP = "happysimulator/components/resource.py"
+    cc = prog.func(RESP, "Resource._configured_capacity")
+    okc = "_capacity_faults" in unparse(cc.node) and any(isinstance(r_, ast.Return) and "state[0]" in unparse(r_.value) for r_ in walk_stmts(cc.node.body))
+    for q in ("Resource.acquire", "Resource.try_acquire"):
+        fn = prog.func(RESP, q)
+        guards = [t_ for t_ in walk_stmts(fn.node.body) if isinstance(t_, ast.If) and any(isinstance(b_, ast.Raise) for b_ in t_.body) and any(f.sig[0] == "lt" and f.sig[2] == "amount" for f in atoms(t_.test, True))]
+        okg = len(guards) == 1 and {f.sig for f in atoms(guards[0].test, True)} == {("lt", "self._configured_capacity()", "amount")}
+        ctx.ob("C06-3", "G7", fn, guards[0] if guards else None, okg and okc, f"{q} rejects only a request larger than the configured capacity (`self._configured_capacity()`), not one that merely exceeds a temporarily reduced capacity")
+
+
+def rule_capacity_fault_exactness(ctx: Ctx) -> None:
+    """C06-3 (hunted, recorded as known findings): "once every window has ended the system is back to its configured state" and "reduced
+    capacity is in effect exactly while a window covers the target".
+    (a) `_update_capacity_faults` must restore `available` exactly: moving it by the float difference of two capacities accumulates rounding
+        (factor 0.3 on capacity 8: available ends at 2.9999999999999996 instead of 3, acquire(3) then waits; a valid release can trip the
+        over-capacity guard inside a window);
+    (b) the wake of queued acquirers on a capacity *increase* must not run before same-instant fault events have been applied: at the seam
+        of back-to-back windows [1,5) [5,9) the restore of the first wakes waiters against the full capacity before the second reduces it."""
+    prog = ctx.prog
+    RFP = "happysimulator/faults/resource_faults.py"
+    fn = prog.func(RFP, "_update_capacity_faults")
+    moves = [s_ for s_ in walk_stmts(fn.node.body) if isinstance(s_, ast.AugAssign) and path_of(s_.target) == "resource._available"]
+    sets = [s_ for s_ in walk_stmts(fn.node.body) if isinstance(s_, ast.Assign) and path_of(s_.targets[0]) == "resource._available"]
+    need(moves or sets, "C06-3: _update_capacity_faults no longer adjusts resource._available")
+    exact = not moves and bool(sets)
+    ctx.ob("C06-3", "G6", fn, (moves or sets)[0], exact, "capacity faults recompute `available` from exact quantities (configured capacity and the amount held) instead of adding the float difference of two capacities")
+    wakes = [k for k in calls_in(fn.node) if path_of(k.func) == "resource._wake_waiters"]
+    ctx.ob("C06-3", "G5", fn, wakes[0] if wakes else "deferred wake", not wakes, "a capacity increase does not wake waiters synchronously inside the fault event: another fault event of the same instant (the next window's reduction) may still be pending")
+
+
 def run(ctx: Ctx) -> None:
+    ctx.guarded(rule_hunted_fixed)
+    ctx.guarded(rule_capacity_fault_exactness)
     ctx.guarded(rule_crash_discipline)
     ctx.guarded(rule_closure_composability)
     ctx.guarded(rule_helpers)
@@ -475,6 +522,8 @@ def run(ctx: Ctx) -> None:
 
 
 MUTANTS = [
+    ("schedule-start-does-not-clamp", "happysimulator/faults/schedule.py", "                if event.time < start_time:\n                    event.time = start_time\n", "                pass\n", "C06-5"),
+    ("acquire-validates-against-reduced-capacity", "happysimulator/components/resource.py", "        if amount > self._configured_capacity():\n            raise ValueError(\n                f\"cannot acquire {amount} from resource '{self.name}' \"\n                f\"with capacity {self._configured_capacity()}\"\n            )\n\n        future = SimFuture()", "        if amount > self._capacity:\n            raise ValueError(\n                f\"cannot acquire {amount} from resource '{self.name}' \"\n                f\"with capacity {self._configured_capacity()}\"\n            )\n\n        future = SimFuture()", "C06-3"),
     ("partition-skips-already-blocked-pairs", NET, "                self._known_entities[entity_b.name] = entity_b\n                if asymmetric:", "                self._known_entities[entity_b.name] = entity_b\n                if self.is_partitioned(entity_a.name, entity_b.name):\n                    continue\n                if asymmetric:", "C06-3"),
     ("layer-walk-starts-below-head", NETF, "    outer = link.latency\n    while isinstance(outer, _CompoundLatency):", "    outer = link.latency._base\n    while isinstance(outer, _CompoundLatency):", "C06-4"),
     ("continuation-ignores-crash", EV, "        if getattr(self.target, \"_crashed\", False):\n            return []\n\n        tracing_on = _event_tracing_enabled", "        tracing_on = _event_tracing_enabled", "C06-1"),
